@@ -1,0 +1,151 @@
+//go:build verif
+
+package lsm
+
+import (
+	"fmt"
+	"sort"
+
+	"github.com/feichai0017/NoKV/kv"
+	"github.com/feichai0017/NoKV/lsm/compact"
+	"github.com/feichai0017/NoKV/utils"
+)
+
+// VerifLevelLayout describes one level for the verification harness.
+type VerifLevelLayout struct {
+	Level  int        `json:"level"`
+	Main   []uint64   `json:"main"`   // main-run table ids in lookup order
+	Ingest [][]uint64 `json:"ingest"` // per-shard ingest table ids in shard order
+}
+
+// VerifLayoutInfo is a snapshot of where data lives.
+type VerifLayoutInfo struct {
+	Mem    uint32             `json:"mem"` // active memtable segment id
+	Imm    []uint32           `json:"imm"` // sealed memtables, oldest first
+	Levels []VerifLevelLayout `json:"levels"`
+	MaxFID uint64             `json:"max_fid"`
+}
+
+// VerifLayout returns the current placement of memtables and tables.
+func (lsm *LSM) VerifLayout() VerifLayoutInfo {
+	var out VerifLayoutInfo
+	lsm.lock.RLock()
+	if lsm.memTable != nil {
+		out.Mem = lsm.memTable.segmentID
+	}
+	for _, mt := range lsm.immutables {
+		out.Imm = append(out.Imm, mt.segmentID)
+	}
+	lsm.lock.RUnlock()
+	for _, lh := range lsm.levels.levels {
+		lh.RLock()
+		ll := VerifLevelLayout{Level: lh.levelNum}
+		for _, t := range lh.tables {
+			ll.Main = append(ll.Main, t.fid)
+		}
+		for _, sh := range lh.ingest.shards {
+			if len(sh.tables) == 0 {
+				continue
+			}
+			var ids []uint64
+			for _, t := range sh.tables {
+				ids = append(ids, t.fid)
+			}
+			ll.Ingest = append(ll.Ingest, ids)
+		}
+		lh.RUnlock()
+		if len(ll.Main) > 0 || len(ll.Ingest) > 0 {
+			out.Levels = append(out.Levels, ll)
+		}
+	}
+	out.MaxFID = lsm.levels.maxFID
+	return out
+}
+
+// VerifCompact runs exactly one compaction job of the requested kind through the
+// engine's own planner and executor. kind is one of "l0" (L0 -> base level move /
+// L0 -> L0), "ingest-keep", "ingest-drain", "regular". baseLevel > 0 overrides
+// the dynamically computed base level for "l0".
+func (lsm *LSM) VerifCompact(kind string, level int, baseLevel int) error {
+	lm := lsm.levels
+	t := lm.levelTargets()
+	if baseLevel > 0 && baseLevel < lm.opt.MaxLevelNum {
+		t.BaseLevel = baseLevel
+	}
+	p := compact.Priority{Level: level, Score: 1.0, Adjusted: 1.0, Target: t}
+	switch kind {
+	case "l0":
+		p.Level = 0
+	case "ingest-keep":
+		p.IngestMode = compact.IngestKeep
+	case "ingest-drain":
+		p.IngestMode = compact.IngestDrain
+	case "regular":
+	default:
+		return fmt.Errorf("verif: unknown compaction kind %q", kind)
+	}
+	return lm.doCompact(0, p)
+}
+
+// VerifSource is one place where a user key was found.
+type VerifSource struct {
+	Kind    string `json:"kind"` // mem | imm | l0 | ingest | main
+	Level   int    `json:"level"`
+	ID      uint64 `json:"id"` // segment id or table id
+	Version uint64 `json:"version"`
+	Meta    byte   `json:"meta"`
+	Value   []byte `json:"value"`
+}
+
+// VerifLocate lists every stored record of (cf,userKey), in the order the read
+// path consults its sources.
+func (lsm *LSM) VerifLocate(cf kv.ColumnFamily, userKey []byte) []VerifSource {
+	var out []VerifSource
+	seek := kv.InternalKey(cf, userKey, ^uint64(0))
+	scan := func(it utils.Iterator, kind string, level int, id uint64) {
+		if it == nil {
+			return
+		}
+		defer func() { _ = it.Close() }()
+		for it.Seek(seek); it.Valid(); it.Next() {
+			e := it.Item().Entry()
+			if e == nil || !kv.SameKey(seek, e.Key) {
+				break
+			}
+			out = append(out, VerifSource{Kind: kind, Level: level, ID: id, Version: kv.ParseTs(e.Key),
+				Meta: e.Meta, Value: append([]byte(nil), e.Value...)})
+		}
+	}
+	tables, release := lsm.GetMemTables()
+	for i, mt := range tables {
+		kind := "imm"
+		if i == 0 {
+			kind = "mem"
+		}
+		scan(mt.NewIterator(&utils.Options{IsAsc: true}), kind, -1, uint64(mt.segmentID))
+	}
+	if release != nil {
+		release()
+	}
+	for _, lh := range lsm.levels.levels {
+		lh.RLock()
+		if lh.levelNum == 0 {
+			for _, t := range lh.tables {
+				scan(t.NewIterator(&utils.Options{IsAsc: true}), "l0", 0, t.fid)
+			}
+		} else {
+			for _, sh := range lh.ingest.shards {
+				rs := append([]tableRange(nil), sh.ranges...)
+				sort.SliceStable(rs, func(i, j int) bool { return utils.CompareKeys(rs[i].min, rs[j].min) > 0 })
+				for _, r := range rs {
+					scan(r.tbl.NewIterator(&utils.Options{IsAsc: true}), "ingest", lh.levelNum, r.tbl.fid)
+				}
+			}
+			for _, t := range lh.tables {
+				scan(t.NewIterator(&utils.Options{IsAsc: true}), "main", lh.levelNum, t.fid)
+			}
+		}
+		lh.RUnlock()
+	}
+	return out
+}
